@@ -148,3 +148,41 @@ Qed.
 
 Lemma demo_breaks_ok : guard_ok demo = true /\ StmtSimple.breaks_ok demo = true /\ sem_facts demo_sem demo_aug demo.
 Proof. split; [vm_compute; reflexivity|]. split; [vm_compute; reflexivity|exact demo_facts]. Qed.
+
+Lemma demo_cont_facts : sem_facts demo_cont_sem demo_aug demo_cont.
+Proof.
+  split.
+  - intros a Ha args v _ Hs. typed_cases Ha Hs.
+  - intros op e t Ha. cbn in Ha. destruct Ha.
+Qed.
+
+Lemma demo_cont_ok :
+  guard_ok demo_cont = true /\ breaks_ok demo_cont = true /\ sem_facts demo_cont_sem demo_aug demo_cont /\
+  pprog_exec demo_cont_sem demo_aug 30 3 demo_cont = Some demo_cont_trace /\
+  exists c, transl demo_cont = Some c /\
+            In NReturn (match c_loop c with [_; NIf [(_, b)] _; _] => b | _ => [] end) /\
+            cprog_exec demo_cont_sem demo_aug (info_of demo_cont) 30 3 true c = Some demo_cont_trace.
+Proof.
+  split; [vm_compute; reflexivity|]. split; [vm_compute; reflexivity|]. split; [exact demo_cont_facts|].
+  split; [vm_compute; reflexivity|].
+  eexists. split; [vm_compute; reflexivity|]. split; [left; reflexivity|]. vm_compute. reflexivity.
+Qed.
+
+Lemma demo_swap_facts : sem_facts demo_swap_sem demo_aug demo_swap.
+Proof.
+  split.
+  - intros a Ha args v _ Hs. typed_cases Ha Hs.
+  - intros op e t Ha. cbn in Ha. destruct Ha.
+Qed.
+
+Lemma demo_swap_ok :
+  guard_ok demo_swap = true /\ breaks_ok demo_swap = true /\ sem_facts demo_swap_sem demo_aug demo_swap /\
+  pprog_exec demo_swap_sem demo_aug 30 2 demo_swap = Some demo_swap_trace /\
+  exists c, transl demo_swap = Some c /\
+            (exists t e r, c_loop c = NDeclTmp 2 t e :: r) /\
+            cprog_exec demo_swap_sem demo_aug (info_of demo_swap) 30 2 true c = Some demo_swap_trace.
+Proof.
+  split; [vm_compute; reflexivity|]. split; [vm_compute; reflexivity|]. split; [exact demo_swap_facts|].
+  split; [vm_compute; reflexivity|].
+  eexists. split; [vm_compute; reflexivity|]. split; [eexists; eexists; eexists; reflexivity|]. vm_compute. reflexivity.
+Qed.
